@@ -420,7 +420,7 @@ theorem serElement_inline_eq (i : Inline Bytes) (hv : validInner (.inline i) = t
 
 /-- **inline placeables** (`{ i }`, `{{ i }}`) have the round-trip property at every level -/
 theorem plRT_inline (L : Nat) (i : Inline Bytes) (hv : validInner (.inline i) = true) : PlRT L (.inline i) := by
-  have htxt : exprText L (.inline i) = elemBytes (.placeable (.inline i)) := by simp [exprText]
+  have htxt : exprText L (.inline i) = elemBytes (.placeable (.inline i)) := exprText_inline_valid L i hv
   obtain ⟨tl, htl⟩ := elemBytes_placeable_head (.inline i) hv
   have hlast := elemBytes_inline_last i hv
   refine ⟨by rw [htxt, htl]; rfl, by rw [htxt]; exact hlast, ?_, ?_⟩
